@@ -364,7 +364,7 @@ func (c CollectionPage) Equals(with Item) bool {
 		return false
 	}
 	result := true
-	OnCollectionPage(with, func(w *CollectionPage) error {
+	err := OnCollectionPage(with, func(w *CollectionPage) error {
 		OnCollection(w, func(wo *Collection) error {
 			if !wo.Equals(c) {
 				result = false
@@ -410,6 +410,9 @@ func (c CollectionPage) Equals(with Item) bool {
 		}
 		return nil
 	})
+	if err != nil {
+		result = false
+	}
 	return result
 }
 
